@@ -224,8 +224,11 @@ def sync_env(net: Net, sched: Sched | None = None):
     """Prepare a Net for the sync flavour (sequential unless threads are spawned)."""
     from .runners import patch_time
     s = sched or Sched()
-    net.sched = s
-    net.now = s.now
+    if net is not None:
+        net.sched = s
+        net.now = s.now
+    simnet.ENV["now"] = s.now
+    simnet.ENV["sched"] = s
     patch_time(s.now)
     return s
 
@@ -241,3 +244,28 @@ def run_flavor(flavor: str, net: Net, fn, seed: int = 0, on_idle=None):
         return run_sync(fn())
     finally:
         runners.unpatch_time()
+        simnet.ENV["now"] = None
+        simnet.ENV["sched"] = None
+
+
+async def guarded(flavor: str, fn, horizon: float = 1.0e5):
+    """Run one scenario `await fn()`; returns an Outcome (ok | exc | hang). 'hang' means the
+    virtual-time watchdog fired (async) or the call could never be woken (sync)."""
+    from .runners import Outcome
+    if is_async(flavor):
+        with anyio.move_on_after(horizon) as scope:
+            try:
+                return Outcome("ok", await fn())
+            except Exception as exc:  # noqa
+                return Outcome("exc", exc=exc)
+            except simnet.SimHang as exc:
+                return Outcome("hang", value=str(exc))
+        if scope.cancelled_caught:
+            return Outcome("hang", value="virtual watchdog")
+        return Outcome("ok", None)
+    try:
+        return Outcome("ok", await fn())
+    except Exception as exc:  # noqa
+        return Outcome("exc", exc=exc)
+    except simnet.SimHang as exc:
+        return Outcome("hang", value=str(exc))
